@@ -3,7 +3,7 @@ from vlib import sesscheck
 
 ID = 'C09'
 LEVEL = 'exploration'
-RULE = "A case is one generated program: an entity diagram (1-3 entities; auto/int/str/composite pks; Required/Optional/unique scalars; composite keys; o2m/o2o/m2m/symmetric relations with cascade options) plus a setup session and 1-3 further sessions of creates, assignments, set(**kw), collection add/remove/clear/assign, deletes, flush/commit/rollback, ending in commit, rollback or an exception. After every session end and every failed commit the tables and link tables are read through the raw DB-API connection and compared with the reference store's last committed snapshot. Non-trivial = at least one successful commit preceded by a delete, collection removal or assignment; distinct by program hash."
+RULE = "A case is one generated program: an entity diagram (1-3 entities; auto/int/str/composite pks; Required/Optional/unique scalars; composite keys; o2m/o2o/m2m/symmetric relations with cascade options) plus a setup session and 1-3 further sessions of creates, assignments, set(**kw), collection add/remove/clear/assign, deletes, flush/commit/rollback, ending in commit, rollback or an exception. After every session end and every failed commit the tables and link tables are read through the raw DB-API connection and compared with the reference store's last committed snapshot. Non-trivial = at least one successful commit preceded by a delete, collection removal or assignment; distinct by program hash. A share of the programs (one third; one half for C11/C13/C15) comes from the hub family: every relationship starts at one entity, with cascading/unlinking relationships declared around a refusing one, populated, and then aimed operations (pending updates of children, pending removals on the hub collections, new children with explicit keys) precede the delete of the hub, so that deletes refused after part of their cascade are common."
 ASSUMPTIONS = ['live SQLite (in-memory) with foreign keys enforced immediately',
                'reference store vlib/refstore.py written from the documented relationship/cascade/key semantics (DESIGN.md section 7a)',
                'table and column names are taken from the mapping metadata (names only)']
